@@ -90,13 +90,16 @@ class Recorder:
 def call_app(iface, app, root, path, host=None):
     """returns (status or None, final environ/scope)"""
     if iface == "wsgi":
-        env = {"REQUEST_METHOD": "GET", "SCRIPT_NAME": root, "PATH_INFO": path}
+        # what every real server also puts there: the server's own name must never stand in for the Host header
+        env = {"REQUEST_METHOD": "GET", "SCRIPT_NAME": root, "PATH_INFO": path, "SERVER_NAME": "a.io", "SERVER_PORT": "80",
+               "wsgi.url_scheme": "http", "QUERY_STRING": "", "SERVER_PROTOCOL": "HTTP/1.0"}
         if host is not None:
             env["HTTP_HOST"] = host
         calls = []
         list(app(env, lambda s, h, e=None: calls.append(s)))
         return (calls[0] if calls else None), {"root": env["SCRIPT_NAME"], "path": env["PATH_INFO"]}
-    scope = {"type": "http", "method": "GET", "root_path": root, "path": path, "headers": []}
+    scope = {"type": "http", "method": "GET", "root_path": root, "path": path, "headers": [(b"user-agent", b"x")], "server": ("a.io", 80), "scheme": "http",
+             "query_string": b""}
     if host is not None:
         scope["headers"].append((b"host", host.encode("latin-1") if isinstance(host, (str, SStr)) else host))
     sent = []
@@ -129,6 +132,8 @@ def job_mount(job) -> report.JobResult:
     p2 = SStr.fresh(l2, "q", 1, hi, eng.solver)
     root = SStr.fresh(lr, "r", 1, hi, eng.solver)
     path = SStr.fresh(lp, "x", 1, hi, eng.solver)
+    lw = job.get("warm")
+    warm = SStr.fresh(lw or 0, "w", 1, hi, eng.solver)
     Sub = WR.Subpaths if iface == "wsgi" else AR.Subpaths
     out: Dict[str, Any] = {}
     from engine.symseq import SSeq
@@ -147,6 +152,11 @@ def job_mount(job) -> report.JobResult:
                 app = Sub((p1, ea), (p2, eb))
         except AssertionError:
             raise cur()._raise(Pruned())  # constructor precondition violated: outside the property's domain
+        if lw is not None:
+            # an earlier request served by the SAME routing object: dispatch must not depend on what was asked before
+            call_app(iface, app, "", warm)
+            a.seen.clear()
+            b.seen.clear()
         status, final = call_app(iface, app, root, path)
         return status, final, a.seen, b.seen
 
@@ -208,6 +218,8 @@ def job_mount(job) -> report.JobResult:
             e.check()
         m = e.solver.model()
         wit = {"iface": iface, "nested": nested, "prefix1": conc(p1, m), "prefix2": conc(p2, m), "root": conc(root, m), "path": conc(path, m)}
+        if lw is not None:
+            wit["earlier_request_path"] = conc(warm, m)
         cp = concrete_mount(wit)
         if klass is not None:
             res.violation(f"C09/{iface}/{'nested' if nested else 'table'}/{klass.split(':')[0]}", wit, f"{klass} {detail}; concrete: {cp}", (cp is not None) or twin)
@@ -240,6 +252,10 @@ def concrete_mount(w) -> Optional[str]:
     except AssertionError:
         return None
     try:
+        if "earlier_request_path" in w:
+            call_app(iface, app, "", w["earlier_request_path"])
+            a.seen.clear()
+            b.seen.clear()
         status, final = call_app(iface, app, root, path)
     except Exception as ex:  # noqa: BLE001
         return f"exception {type(ex).__name__}: {ex}"
@@ -284,7 +300,7 @@ def job_host(job) -> report.JobResult:
     def fn():
         recs = [Recorder(str(i)) for i in range(len(table))]
         app = Hosts(*[(p, (r.wsgi if iface == "wsgi" else r.asgi)) for p, r in zip(table, recs)])
-        status, _ = call_app(iface, app, "", "/", host)
+        status, _ = call_app(iface, app, "", "/", None if job.get("absent") else host)
         return status, [len(r.seen) for r in recs]
 
     def on_path(e, r):
@@ -316,7 +332,7 @@ def job_host(job) -> report.JobResult:
         if klass is None:
             e.check()
         m = e.solver.model()
-        wit = {"iface": iface, "table": table, "host": conc(host, m)}
+        wit = {"iface": iface, "table": table, "host": conc(host, m), "absent": bool(job.get("absent"))}
         with shims.off():
             cp = concrete_host(wit)
         if klass is not None:
@@ -341,7 +357,7 @@ def concrete_host(w) -> Optional[str]:
     recs = [Recorder(str(i)) for i in range(len(table))]
     app = Hosts(*[(p, (r.wsgi if iface == "wsgi" else r.asgi)) for p, r in zip(table, recs)])
     try:
-        status, _ = call_app(iface, app, "", "/", host)
+        status, _ = call_app(iface, app, "", "/", None if w.get("absent") else host)
     except Exception as ex:  # noqa: BLE001
         return f"exception {type(ex).__name__}: {ex}"
     exp = next((i for i, p in enumerate(table) if re.fullmatch(p, host)), None)
@@ -363,9 +379,15 @@ def jobs(tier: str):
                     out.append(dict(name=f"mount/{iface}/p{l1}q{l2}r{lr}x{lp}", kind="mount", iface=iface, l1=l1, l2=l2, lr=lr, lp=lp, weight=2 ** (l1 + l2 + lp)))
                     if lp >= 2 and (tier == "thorough" or lr >= 1):
                         out.append(dict(name=f"nested/{iface}/p{l1}q{l2}r{lr}x{lp}", kind="mount", iface=iface, l1=l1, l2=l2, lr=lr, lp=lp, nested=True, weight=2 ** (l1 + l2 + lp)))
+        for lw in (2, 3):
+            # (4, 2, .., 4): the shortest table in which the second prefix is a segment prefix of the first ('/a/b' before '/a')
+            for l1, l2, lp in ((2, 2, 2), (2, 1, 3), (4, 2, 4), (2, 4, 4)):
+                out.append(dict(name=f"mount-after-request/{iface}/p{l1}q{l2}w{lw}x{lp}", kind="mount", iface=iface, l1=l1, l2=l2, lr=0, lp=lp, warm=lw,
+                                weight=2 ** (l1 + l2 + lp + lw)))
         for t in range(len(HOST_TABLES)):
             for n in range(0, b["host_len_max"] + 1):
                 out.append(dict(name=f"host/{iface}/t{t}/n{n}", kind="host", iface=iface, table=t, n=n, weight=3 ** n))
+            out.append(dict(name=f"host/{iface}/t{t}/no-host-header", kind="host", iface=iface, table=t, n=0, absent=True))  # HTTP/1.0 client
     out.append(dict(name="twin/mount", kind="mount", iface="wsgi", l1=2, l2=0, lr=0, lp=2, twin=True))
     out.append(dict(name="twin/host", kind="host", iface="asgi", table=0, n=4, twin=True))
     return out
